@@ -1,3 +1,5 @@
+import sys
+sys.set_int_max_str_digits(0)
 """Scalar / exponent tracking generator (untrusted): replays the straight-line chain statements with Python
 integers and inserts `assert(X.view == f(K, base))` stepping stones after each statement it understands.
 A statement it does not understand stops the tracking of the variables it mentions (no assert is emitted for
@@ -7,7 +9,8 @@ from .rs import split_statements
 
 
 class Tracker:
-    def __init__(self, base_expr, fmt, double='double', add='add_assign', sub='sub_assign', calls=None, modulus=None, mul_lemma='ax_smul_mul'):
+    def __init__(self, base_expr, fmt, double='double', add='add_assign', sub='sub_assign', calls=None, modulus=None, mul_lemma='ax_smul_mul',
+                 scale_ops=None, argscale_ops=None, call_handlers=None, int_vars=None):
         """fmt(K) -> spec text for the value with multiplier K relative to base; calls: {fn name: multiplier K}
         for two-argument chain functions f(out, in)."""
         self.fmt = fmt
@@ -17,6 +20,13 @@ class Tracker:
         self.base_expr = base_expr
         self.mul_lemma = mul_lemma
         self.hint = None
+        self.scale_ops = dict(scale_ops or {})        # method() -> factor
+        self.argscale_ops = dict(argscale_ops or {})  # method(lit) -> factor(lit)
+        self.call_handlers = dict(call_handlers or {})  # fn name -> handler(args, env, ints) -> (target, K, hint) or None
+        self.ints = dict(int_vars or {})              # concrete machine-integer variables (e.g. the u64 x of exp_by_x)
+        self.extra = []
+        self.post_extra = []
+        self.reduce_hint = None
 
     def run(self, body, init, view):
         """body: block text with braces; init: {var: K}.  Returns new body text."""
@@ -31,16 +41,26 @@ class Tracker:
             last = b
             s = st.strip().rstrip(';').strip()
             self.hint = None
+            self.extra = []
+            self.post_extra = []
             tgt = self.step(s, env)
+            out.extend(self.extra)
             if tgt is not None and env.get(tgt) is not None:
                 if self.hint and self.mul_lemma:
                     out.append(f" proof {{ {self.mul_lemma}({self.hint[0]}int, {self.hint[1]}int, {self.base_expr}); }}")
+                out.extend(self.post_extra)
                 out.append(f" assert({tgt}.{view} == {self.fmt(env[tgt])});")
         out.append(body[last:])
+        self.last_env = dict(env)
         return body[0] + ''.join(out)
 
     def norm(self, k):
-        return k % self.modulus if self.modulus else k
+        if not self.modulus:
+            return k
+        r = k % self.modulus
+        if r != k and self.reduce_hint:
+            self.post_extra.append(self.reduce_hint(k, r))
+        return r
 
     def step(self, s, env):
         def name(e):
@@ -56,6 +76,12 @@ class Tracker:
             x, op, arg = m.group(1), m.group(2), m.group(3).strip()
             if op == self.double and not arg:
                 env[x] = None if env.get(x) is None else self.norm(2 * env[x])
+                return x
+            if op in self.scale_ops and not arg:
+                env[x] = None if env.get(x) is None else self.norm(self.scale_ops[op] * env[x])
+                return x
+            if op in self.argscale_ops and re.fullmatch(r'\d+', arg):
+                env[x] = None if env.get(x) is None else self.norm(self.argscale_ops[op](int(arg)) * env[x])
                 return x
             if op in (self.add, self.sub) and name(arg) is not None:
                 y = env.get(name(arg))
@@ -75,7 +101,24 @@ class Tracker:
                 self.hint = (1 << n, env[x])
             env[x] = None if env.get(x) is None else self.norm(env[x] * (1 << n))
             return x
+        # machine-integer variables:  let mut x = CONST;  x >>= n;  x <<= n;
+        m = re.fullmatch(r'([A-Za-z_][A-Za-z0-9_]*)\s*(>>|<<)=\s*(\d+)', s)
+        if m and m.group(1) in self.ints and self.ints[m.group(1)] is not None:
+            x, op, n = m.group(1), m.group(2), int(m.group(3))
+            old = self.ints[x]
+            new = (old >> n) if op == '>>' else ((old << n) & 0xFFFFFFFFFFFFFFFF)
+            self.ints[x] = new
+            self.extra.append(f" proof {{ assert({old}u64 {op} {n}u64 == {new}u64) by(bit_vector); }} assert({x} == {new}u64);")
+            return None
         m = re.fullmatch(r'([A-Za-z_][A-Za-z0-9_]*)\s*\((.*)\)', s, re.S)
+        if m and m.group(1) in self.call_handlers:
+            args = [a.strip() for a in m.group(2).split(',')]
+            r = self.call_handlers[m.group(1)](args, env, self.ints, name)
+            if r is not None:
+                tgt, k, hint = r
+                env[tgt] = k
+                self.hint = hint
+                return tgt
         if m and m.group(1) in self.calls:
             args = [a.strip() for a in m.group(2).split(',')]
             if len(args) == 2 and name(args[0]) and name(args[1]):
